@@ -29,6 +29,7 @@ pub fn general_alphabet() -> Vec<Mac> {
         c(CallCode, BSD, 0, 50_000),
         c(DelegateCall, BWRITE, 0, 50_000),
         c(DelegateCall, BSD, 0, 50_000),
+        c(DelegateCall, BW1, 0, 50_000),
         c(StaticCall, BWRITE, 0, 50_000),
         c(StaticCall, BOK, 0, 50_000),
         Mac::Create { init: Init::Empty, value: 0 },
@@ -222,7 +223,7 @@ pub fn alphabet_for(spec: SpecId, alpha: &[Mac]) -> Vec<Mac> {
 pub fn addr_name(a: Address) -> String {
     let names = [
         (SENDER, "SENDER"), (COINBASE, "COINBASE"), (A, "A"), (BOK, "BOK"), (BREV, "BREV"), (BHALT, "BHALT"), (BWRITE, "BWRITE"), (BSD, "BSD"),
-        (BLOG, "BLOG"), (BBURN, "BBURN"), (PROBE, "PROBE"), (BRET64, "BRET64"), (BNEST, "BNEST"), (BSDREV, "BSDREV"), (RICH, "RICH"), (DUST, "DUST"), (STOR, "STOR"),
+        (BLOG, "BLOG"), (BBURN, "BBURN"), (PROBE, "PROBE"), (BRET64, "BRET64"), (BNEST, "BNEST"), (BSDREV, "BSDREV"), (BW1, "BW1"), (RICH, "RICH"), (DUST, "DUST"), (STOR, "STOR"),
         (EMPTY, "EMPTY"), (AUTH, "AUTH"),
     ];
     names.iter().find(|(x, _)| *x == a).map(|(_, n)| n.to_string()).unwrap_or_else(|| format!("{a}"))
